@@ -146,7 +146,11 @@ static bool parse_double(const char **p, double *val) {
     char *end;
     errno = 0;
     double v = strtod(*p, &end);
-    if (end == *p || errno != 0) return false;
+    if (end == *p) return false;
+    /* ERANGE is also reported for subnormal results, which are valid f64
+     * operands (the disassembler prints them with %.17g); only overflow is
+     * an error. */
+    if (errno == ERANGE && (v > 1.0 || v < -1.0)) return false;
     *val = v;
     *p = end;
     return true;
